@@ -410,7 +410,13 @@ fn one_case(ctx: &Ctx, case: u64, l: &mut Local) {
                 t.disclosures.push((*r.pick(&["!!!", "e30", "W10", "bnVsbA", "", "AAAA", "IiI", "eyJhIjoxfQ", "eyJhbGciOiJub25lIn0", "NDI", "dHJ1ZQ"])).to_string());
             }
             "disc-repadded" => {
-                if !t.disclosures.is_empty() {
+                // the same octets spelled differently: '=' padding, or the standard base64 alphabet where the
+                // text has '-' / '_' (both forms must treat the respelled string alike)
+                let swappable: Vec<usize> = t.disclosures.iter().enumerate().filter(|(_, d)| d.contains('-') || d.contains('_')).map(|(i, _)| i).collect();
+                if !swappable.is_empty() && r.chance(70) {
+                    let i = *r.pick(&swappable);
+                    t.disclosures[i] = t.disclosures[i].replace('-', "+").replace('_', "/");
+                } else if !t.disclosures.is_empty() {
                     let i = r.usize(t.disclosures.len());
                     t.disclosures[i].push('=');
                 }
